@@ -95,8 +95,8 @@ def lindblad_clock(k, dt, sampling):
 
 
 def regenerate(ctx):
-    """coq/Gen/SmallGen.v from the current source of check_if_identity / AnalogSimParams.times / the scheduled-jump tests (fail closed)"""
-    translate_small.regenerate()
+    """coq/Gen/TimesGen.v from the current source of AnalogSimParams.times (fail closed)"""
+    translate_small.regenerate(("times",))
 
 
 def correspond(ctx):
